@@ -430,9 +430,8 @@ func (s *Service) restoreFromECPartsByRule(ctx context.Context, cnr cid.ID, pare
 		return object.Object{}, tooManyPartsUnavailableError(rem)
 	}
 
-	pldLen := hdr.PayloadSize()
-
 	if rem == 0 {
+		pldLen := hdr.PayloadSize()
 		if got := islices.TwoDimSliceElementCount(parts[:rule.DataPartNum]); uint64(got) < pldLen {
 			return object.Object{}, fmt.Errorf("sum len of received data parts is less than full len: %d < %d", got, pldLen)
 		}
@@ -448,7 +447,7 @@ func (s *Service) restoreFromECPartsByRule(ctx context.Context, cnr cid.ID, pare
 	for i := range rule.ParityPartNum {
 		partIdx := int(rule.DataPartNum + i)
 		eg.Go(func() error {
-			_, part, err := s.getECPart(gCtx, cnr, parent, rule, ruleIdx, sortedNodes, partIdx)
+			parentHdr, part, err := s.getECPart(gCtx, cnr, parent, rule, ruleIdx, sortedNodes, partIdx)
 			if err != nil {
 				if errors.Is(err, apistatus.ErrObjectAlreadyRemoved) || errors.Is(err, apistatus.ErrObjectAccessDenied) || errors.Is(err, gCtx.Err()) ||
 					errors.As(err, new(*object.SplitInfoError)) {
@@ -464,6 +463,11 @@ func (s *Service) restoreFromECPartsByRule(ctx context.Context, cnr cid.ID, pare
 				return nil
 			}
 
+			// no data part may have been available to take the parent header from
+			if !gotHdr.Swap(true) {
+				hdr = parentHdr
+			}
+
 			parts[partIdx] = part
 			if okCounter.Add(1) >= uint32(rem) {
 				return errInterrupt
@@ -476,11 +480,15 @@ func (s *Service) restoreFromECPartsByRule(ctx context.Context, cnr cid.ID, pare
 		return object.Object{}, err
 	}
 
+	if gotHdr.Load() && hdr.PayloadSize() == 0 { // header came from a parity part, nothing to decode
+		return hdr, nil
+	}
+
 	if rem = islices.CountNilsInTwoDimSlice(parts); rem > int(rule.ParityPartNum) {
 		return object.Object{}, tooManyPartsUnavailableError(rem)
 	}
 
-	payload, err := iec.Decode(rule, pldLen, parts)
+	payload, err := iec.Decode(rule, hdr.PayloadSize(), parts)
 	if err != nil {
 		return object.Object{}, fmt.Errorf("decode payload from parts: %w", err)
 	}
